@@ -8,7 +8,7 @@ from fractions import Fraction
 import networkx as nx
 import z3
 
-from .. import checkers, core, families as F, instances as I, layers, models, smt
+from .. import checkers, core, families as F, instances as I, layers, models, smt, hx
 from ..core import HarnessError, new_result
 from . import c01
 
@@ -320,6 +320,23 @@ def run_task(task):
                 continue
             vals = enc.values(s.model())
             fvals = [float(v) for v in vals]
+            # the same legal answer delivered by a SECOND real solve() on the already solved object (no cache is cleared by the
+            # harness): what get_solution() then returns must explain the flow as well
+            if attempt == 0 and inner is m and hasattr(inner, "solve"):
+                res["obligations"] += 1
+                try:
+                    with hx.capture(lambda idx, lp_, h, fv=fvals: {"status": "kOptimal", "values": fv, "skip_native": True}):
+                        ok_again = inner.solve()
+                    sol3 = inner.get_solution() if ok_again else None
+                    pr3 = _inner_explanation_problems(task, m, inner, sol3) if sol3 is not None else ["second solve() with an optimal answer returned False"]
+                except Exception as e:
+                    pr3 = [f"second solve()/get_solution() raised {type(e).__name__}: {e}"]
+                res["extra"]["traces_validated_against_impl"] = res["extra"].get("traces_validated_against_impl", 0) + 1
+                if pr3:
+                    res["violations"].append({"signature": f"{cls}:re-solve-with-another-optimum:{_cls(pr3)}", "summary": f"{task['name']}: {pr3[0]}",
+                                              "replay": {"kind": "resolve", "task": task, "values": [str(v) for v in vals]}})
+                else:
+                    res["discharged"] += 1
             sol2 = c01._inject_and_decode(inner, fvals)
             res["extra"]["traces_validated_against_impl"] = res["extra"].get("traces_validated_against_impl", 0) + 1
             pr = _inner_explanation_problems(task, m, inner, sol2)
@@ -328,6 +345,7 @@ def run_task(task):
                                           "replay": {"kind": "inject", "task": task, "values": [str(v) for v in vals]}})
             else:
                 res["discharged"] += 1
+
     return res
 
 
@@ -396,6 +414,21 @@ def replay(data):
     if lp.violations(vals, max(1e-9, lp.tol) * 4):
         print("  replay: injected answer is not feasible for the current LP")
         return False
+    if data["kind"] == "resolve":
+        try:
+            with hx.capture(lambda idx, lp_, h, fv=vals: {"status": "kOptimal", "values": fv, "skip_native": True}):
+                ok_again = inner.solve()
+            sol = inner.get_solution() if ok_again else None
+        except Exception as e:
+            print("  replay: second solve raised", type(e).__name__, e)
+            return True
+        if sol is None:
+            print("  replay: second solve() with an optimal answer returned False")
+            return True
+        pr = _inner_explanation_problems(task, m, inner, sol)
+        if pr:
+            print("  replay (second solve on the same object):", pr[0])
+        return bool(pr)
     try:
         sol = c01._inject_and_decode(inner, vals)
     except Exception as e:
